@@ -133,11 +133,8 @@ def run(chk, tier):
             chk.inst("per-arena-state-built-only-by-its-constructor", "%s[%s]" % (adt_, c), not extra,
                      detail="%s is assembled in %s: collector state can be created around (or shared with) existing state "
                             "of another arena" % (adt_, extra), sample={"type": adt_, "sites": sorted(set(where))})
-        # Metrics handles are cloned only to store an arena's own handle in its own context
-        clones = sorted({prog.fn_of_closure(e.caller) for e in prog.callers_of("<metrics::Metrics as core::clone::Clone>::clone")})
-        chk.inst("metrics-handle-cloned-only-in-context-new", "metrics::Metrics::clone[%s]" % c,
-                 set(clones) <= {"context::Context::new"},
-                 detail="a Metrics handle is cloned in %s: two contexts could end up sharing one metrics cell" % clones)
+        # (a Metrics handle may be cloned freely - it is a public Clone type; what matters is that no Context can be
+        # assembled around an existing one, which is the rule above together with Context::new taking no arguments)
         # the one cross-arena channel: a handle presented to another arena's set must be refused
         rules_roots.fetch_rules(chk, prog, c, rule="foreign-handle-refused")
         rules_roots.contains_identity(chk, prog, c, rule="foreign-handle-identity")
